@@ -633,6 +633,8 @@ class MixedLogReader(object):
             self.index = self.index.get_time_range(hint='remove_nans')
             self.filtered_message_types = len(np.unique(self._original_index.type)) != \
                                           len(np.unique(self.index.type))
+            # Entries have been removed from the index: locate the next entry to be read in the reduced index.
+            self.filter_in_place(key=None)
         else:
             self.remove_invalid_p1_time = True
 
